@@ -394,7 +394,7 @@ class Check(core.PropertyCheck):
         # random addresses far from the enumerated boundaries, all modes, random spelling variants
         rng = random.Random(ctx.seed + 22)
         all_nets = {"v4": NETS4, "v6": NETS6}
-        for _ in range(800 if ctx.quick else 30000):
+        for _ in range(800 if ctx.quick else 12000):
             fam = rng.choice(("v4", "v6"))
             bits = 32 if fam == "v4" else 128
             r = rng.random()
